@@ -58,10 +58,18 @@ class Source:
         a = self._unique(text, fn_region.start, fn_region.end)
         return Region(self, a, a + len(text))
 
-    def call_arg(self, fn_region, callee, index, strip_closure_head=True):
-        """Region of the index-th argument of the unique call `callee(` inside fn_region; for a closure argument
-        `|x| EXPR` the region of EXPR."""
-        a = self._unique(callee + "(", fn_region.start, fn_region.end) + len(callee) + 1
+    def call_arg(self, fn_region, callee, index, strip_closure_head=True, occurrence=None):
+        """Region of the index-th argument of the unique (or `occurrence`-th) call `callee(` inside fn_region; for a
+        closure argument `|x| EXPR` the region of EXPR."""
+        if occurrence is None:
+            a = self._unique(callee + "(", fn_region.start, fn_region.end) + len(callee) + 1
+        else:
+            a = fn_region.start
+            for _ in range(occurrence + 1):
+                a = self.text.find(callee + "(", a, fn_region.end)
+                if a < 0:
+                    raise LostAnchor("call %s( number %d not found in %s" % (callee, occurrence, self.rel))
+                a += len(callee) + 1
         depth, start, k, i = 0, a, 0, a
         t = self.text
         while i < fn_region.end:
@@ -150,6 +158,28 @@ class Source:
             raise LostAnchor("no body in %s" % self.rel)
         nl = t.find("\n", open_at)
         e = fn_region.end - 1
+        while t[e - 1] in " \t\n":
+            e -= 1
+        return Region(self, nl + 1, e)
+
+    def after_call_until(self, fn_region, callee, before):
+        """Statements after the statement containing the unique call `callee(` up to (excluding) the line containing `before`."""
+        t = self.text
+        a = self._unique(callee + "(", fn_region.start, fn_region.end)
+        depth, j = 0, a
+        while j < fn_region.end:
+            c = t[j]
+            if c in "([{":
+                depth += 1
+            elif c in ")]}":
+                depth -= 1
+            elif c == ";" and depth == 0:
+                break
+            j += 1
+        b = self._unique(before, j, fn_region.end)
+        ls = t.rfind("\n", 0, b) + 1
+        nl = t.find("\n", j)
+        e = ls
         while t[e - 1] in " \t\n":
             e -= 1
         return Region(self, nl + 1, e)
